@@ -50,6 +50,14 @@ func GenFunc(prog *Prog, fn *ssa.Function, fc *FuncContract) *VC {
 		vc.emit(fmt.Sprintf("(declare-const %s %s)", name, enc.sortOf(fv.Type())))
 		vc.assume(enc.wellFormed(name, fv.Type(), st0.wm))
 		vc.assume(not(fmt.Sprintf("(= (p.obj %s) 0)", name)))
+		// a captured variable is an allocation of its own: not a field or element of another object,
+		// and distinct from the other captured variables
+		if _, isPtr := fv.Type().Underlying().(*types.Pointer); isPtr {
+			vc.assume(fmt.Sprintf("(and (= (p.idx %s) 0) (= (p.fld %s) 0))", name, name))
+			for _, o := range fr.freeVars {
+				vc.assume(not(fmt.Sprintf("(= (p.obj %s) (p.obj %s))", name, o.T)))
+			}
+		}
 		fr.freeVars = append(fr.freeVars, Val{T: name, Typ: fv.Type()})
 	}
 	fr.entrySt = st0.clone()
